@@ -269,6 +269,7 @@ func vfRun(x *vfExec) bool {
 	select {
 	case <-x.workDone:
 	case <-t.C:
+		vfStuck.Store(true)
 		close(x.giveUp)
 		return false
 	}
@@ -276,6 +277,7 @@ func vfRun(x *vfExec) bool {
 	select {
 	case <-x.cEnd:
 	case <-t.C:
+		vfStuck.Store(true)
 		return false
 	}
 	return true
@@ -439,14 +441,27 @@ func vfWaitCheck(c *kit.Case, x *vfExec) {
 	}
 }
 
+func vfLeakKey(stack string) string {
+	var keep []string
+	for _, ln := range strings.Split(stack, "\n") {
+		if !strings.Contains(ln, "verif_case") {
+			keep = append(keep, ln)
+		}
+	}
+	return kit.KeyPart(kit.TopFrames(strings.Join(keep, "\n"), 2))
+}
+
 func vfCensus(c *kit.Case) {
+	if vfStuck.Load() {
+		return // an unjoined interceptor call is reported as inconclusive, not as a leak
+	}
 	leaked, conclusive := kit.Census(c.ID, 300*time.Millisecond, 4, 30*time.Second)
 	if !conclusive {
 		c.Inconclusive("goroutine census did not stabilise")
 		return
 	}
 	for _, g := range leaked {
-		vfViol(c, "leak", kit.KeyPart(kit.TopFrames(g.Stack, 2)), fmt.Sprintf("%d goroutine(s) still parked with an identical stack after the handler returned", g.Count), map[string]any{"stack": g.Stack})
+		vfViol(c, "leak", vfLeakKey(g.Stack), fmt.Sprintf("%d goroutine(s) still parked with an identical stack after the handler returned", g.Count), map[string]any{"stack": g.Stack})
 	}
 }
 
@@ -501,9 +516,12 @@ func vfTimerCase(c *kit.Case) {
 		timeout := time.Duration(1000+r.Intn(19000)) * time.Microsecond
 		f := []float64{0, 0.5, 0.9 + 0.2*r.Float64(), 0.9 + 0.2*r.Float64(), 0.9 + 0.2*r.Float64(), 1.02, 1.5}[r.Intn(7)]
 		pl := vfPlan{Mode: "timer", Method: vfSlowMethod, Ret: kit.Choose(r, []string{"ok", "ok", "err", "both", "panic"})}
-		if r.Bool() {
+		switch r.Intn(3) {
+		case 0:
 			pl.Default, pl.PerMethod = time.Hour, timeout // the per-method value must be the one applied
-		} else {
+		case 1:
+			pl.Default, pl.PerMethod = timeout/8, timeout // also when it is the longer one
+		default:
 			pl.Default, pl.PerMethod = timeout, 0
 			pl.Method = "/verif.Svc/Fast"
 		}
